@@ -18,7 +18,7 @@ pub struct Case {
     pub frames: usize, // base/tool isometry choice
     pub layout: usize,
     pub safety: usize, // 0 touch, 1 3 cm
-    pub limits: usize, // 0 wide, 1 window
+    pub limits: usize, // 0 wide, 1 window, 2 window with hand-set centres / tolerances (public fields)
     pub q: Joints,
 }
 
@@ -51,6 +51,8 @@ fn cell_for(c: &Case) -> CellDesc {
     cell.safety = if c.safety == 0 { SafetyDesc::touch(if c.ctor == 0 { 0 } else { 1 }) } else { SafetyDesc { to_env: 0.03, to_robot: 0.03, special: vec![], mode: 0 } };
     cell.limits = if c.limits == 0 {
         Limits { from: [-3.1; 6], to: [3.1; 6], weight: 0.0 }
+    } else if c.limits == 2 {
+        Limits { from: [-1.0, -1.5, -2.8, -0.5, -2.0, -2.5], to: [2.5, 2.4, 2.8, 0.9, 2.0, 0.5], weight: 0.6 }
     } else {
         // wide ranges whose centres are far from zero, so the CONSTRAINT_CENTERED reference differs from zeros
         Limits { from: [-1.0, -1.5, -2.8, -0.5, -2.0, -5.5], to: [4.5, 2.4, 2.8, 5.5, 2.0, 0.5], weight: 0.5 }
@@ -58,10 +60,33 @@ fn cell_for(c: &Case) -> CellDesc {
     cell
 }
 
+/// The limits handed to the constructor. Variant 2 edits the public fields after construction: J4 released
+/// (infinite tolerance), the centre of J6 moved, the centre of J1 placed one turn up.
+fn constraints_for(c: &Case, cell: &CellDesc) -> Constraints {
+    let mut cons = Constraints::new(cell.limits.from, cell.limits.to, cell.limits.weight);
+    if c.limits == 2 {
+        cons.tolerances[3] = f64::INFINITY;
+        cons.centers[5] += 0.7;
+        cons.tolerances[5] += 0.7;
+        cons.centers[0] += 2.0 * std::f64::consts::PI;
+    }
+    cons
+}
+
+/// The underlying stack, built independently of the constructor under test: tool over base over the limited robot.
+fn reference_stack(c: &Case, cell: &CellDesc) -> std::sync::Arc<dyn Kinematics> {
+    use rs_opw_kinematics::kinematics_impl::OPWKinematics;
+    use rs_opw_kinematics::tool::{Base, Tool};
+    use std::sync::Arc;
+    let (b, t) = frames(c.frames);
+    let core = OPWKinematics::new_with_constraints(cell.params, constraints_for(c, cell));
+    Arc::new(Tool { robot: Arc::new(Base { robot: Arc::new(core), base: to_na(&b) }), tool: to_na(&t) })
+}
+
 fn build(c: &Case, cell: &CellDesc) -> KinematicsWithShape {
     let (b, t) = frames(c.frames);
     let lm = link_meshes(&cell.subdiv).map(|m| m.to_parry());
-    let cons = Constraints::new(cell.limits.from, cell.limits.to, cell.limits.weight);
+    let cons = constraints_for(c, cell);
     let env: Vec<CollisionBody> = cell
         .envs
         .iter()
@@ -83,7 +108,8 @@ pub fn eval(c: &Case) -> (Vec<(String, String)>, String) {
     let mut fails = Vec::new();
     let cell = cell_for(c);
     let robot = build(c, &cell);
-    let inner = robot.kinematics.clone();
+    let inner = reference_stack(c, &cell);
+    let given = constraints_for(c, &cell);
     let q = &c.q;
     let ctor = ["new-first", "new-all", "with_safety"][c.ctor];
     // the stack built by the constructor is base * robot * tool with the given limits
@@ -92,9 +118,12 @@ pub fn eval(c: &Case) -> (Vec<(String, String)>, String) {
     if !(dp <= 1e-9 && da <= 1e-9) {
         fails.push((format!("C11/stack-forward/{ctor}"), format!("forward differs from base*robot*tool by {dp:e} m, {da:e} rad")));
     }
+    let eq6 = |a: &[f64; 6], b: &[f64; 6]| (0..6).all(|i| a[i].to_bits() == b[i].to_bits());
     match robot.constraints() {
-        Some(k) if k.from == cell.limits.from && k.to == cell.limits.to && k.sorting_weight == cell.limits.weight => {}
-        other => fails.push((format!("C11/stack-constraints/{ctor}"), format!("constraints() = {other:?}"))),
+        Some(k)
+            if eq6(&k.from, &given.from) && eq6(&k.to, &given.to) && eq6(&k.centers, &given.centers) && eq6(&k.tolerances, &given.tolerances)
+                && k.sorting_weight == given.sorting_weight => {}
+        other => fails.push((format!("C11/stack-constraints/{ctor}"), format!("constraints() = {other:?}, the limits given to the constructor are {given:?}"))),
     }
     // plain delegation, bit-equal
     if bits(&robot.forward(q)) != bits(&inner.forward(q)) {
@@ -185,7 +214,7 @@ pub fn run(ctx: &Ctx) -> Report {
     let qs = crate::c10::postures(false);
     let qs: Vec<Joints> = if thorough { qs } else { qs.into_iter().step_by(5).collect() };
     let layouts = [0usize, 2, 3, 9, 10, 11, 12, 13];
-    let sizes = [3, 3, layouts.len(), 2, 2, qs.len()];
+    let sizes = [3, 3, layouts.len(), 2, 3, qs.len()];
     let n = par::product(&sizes);
     let mut rep = par::run(n, |idx, r| {
         let mut ix = [0usize; 6];
@@ -217,11 +246,11 @@ pub fn run(ctx: &Ctx) -> Report {
     }
     rep.traces_validated = rep.transitions;
     rep.rule = "constructors {new(first only), new(all), with_safety} x base/tool isometries {identity, shifted, rotated} x environments {free, near, blocking \
-                slab/wall/cage, ...} x safety {touch, 3 cm} x limits {wide, window+weight with off-zero centres} x postures x four inverse entry points x previous {near the solution, CONSTRAINT_CENTERED, far out}; oracle (differential): answers \
-                == ordered filter of the underlying stack's answers by !collides, bit-equal; forward, link poses, singularity bit-equal to the underlying stack; \
+                slab/wall/cage, ...} x safety {touch, 3 cm} x limits {wide, window+weight with off-zero centres, window with hand-set centres/tolerances} x postures x four inverse entry points x previous {near the solution, CONSTRAINT_CENTERED, far out}; oracle (differential): answers \
+                == ordered filter of the underlying stack's answers by !collides, bit-equal; forward, link poses, singularity bit-equal to the underlying stack (tool over base over the limited robot, built independently from the same pieces); \
                 stack == base*FK_ref*tool with the given limits; positioned_robot == link poses cast to f32, tool on link 6, environment passed through; \
                 signature = (constructor, kept k of n)".into();
-    rep.set("axes", json!({"constructors": 3, "frames": 3, "layouts": layouts.len(), "safety": 2, "limits": 2, "postures": qs.len()}));
+    rep.set("axes", json!({"constructors": 3, "frames": 3, "layouts": layouts.len(), "safety": 2, "limits": 3, "postures": qs.len()}));
     rep.assumptions.push("collides() itself is tied to the brute-force pair oracle by C10".into());
     rep
 }
